@@ -39,6 +39,14 @@ attributes): registrations whose effect on OTHER types goes through state derive
 disambiguator reads the `overrides` of the structure hooks registered for the member classes (`create_default_dis_func(...,
 overrides="from_converter")`), so a member-class hook with a renamed field, registered through any path after the union
 (top level, as a field, inside a collection) was used, must re-key the union exactly as on a fresh converter.
+
+Fallback-factory stream (implementation only, `harness/dispatch_fallback.py`): converters constructed with NON-DEFAULT fallback
+factories whose hooks are built out of other hooks -- chained converters (`unstructure_fallback_factory=parent.get_unstructure_hook`)
+and factories composing `conv.get_*_hook(field type)` for plain annotated classes (early / uncached / late binding) -- used,
+then given registrations for the types those hooks are composed of.
+Strategy stream (implementation only, `harness/dispatch_strategies.py`): `include_subclasses` (with / without a union strategy,
+with / without overrides, on the root or an inner class) as a registration operation applied AFTER the classes of the tree,
+their holders and collections of them were used.
 """
 import itertools
 import json
@@ -47,6 +55,8 @@ from harness import framework, lean
 from harness import dispatch_common as dc
 from harness.dispatch_common import DIRS, ST, UN, ConvCfg, Impl, U
 from harness.dispatch_derived import derived_replay, derived_stream
+from harness.dispatch_fallback import fallback_replay, fallback_stream
+from harness.dispatch_strategies import strategy_replay, strategy_stream
 from harness.props.c07 import gen_cfg as _gen_cfg07
 from harness.props.c18 import COLL_CHOICES, TYO_CHOICES, ext_battery, gen_copy
 
@@ -65,7 +75,16 @@ def gen_cfg(rng):
         cc.extra["type_overrides"] = rng.choice(TYO_CHOICES[1:])
     if rng.random() < 0.15:
         cc.fb_un = dc.STRICT_FB[0]   # a strict unstructure fallback factory: hook generation FAILS for unregistered types
+    r = rng.random()
+    if r < 0.2:      # fallback factories whose hooks are composed of other hooks (dispatch_common.COMPOSE_FB), either direction
+        cc.fb_un = rng.choice(dc.COMPOSE_FB)
+    elif r < 0.4:
+        cc.fb_st = rng.choice(dc.COMPOSE_FB)
     return cc
+
+
+def composing(cc):
+    return cc.fb_un in dc.COMPOSE_FB or cc.fb_st in dc.COMPOSE_FB
 
 
 def build_history(rng, cc, preds, n_ops, p_warm=0.55, copies=0):
@@ -202,6 +221,8 @@ def check_case(chk, drv, cc, preds, history, full, prefix_of, corr_fail, stats, 
     chk.note("cfg:" + cc.name().split("/")[0], "len:%02d" % len(history))
     if cc.fb_un in dc.STRICT_FB:
         chk.note("cfg:strict-unstructure-fallback")
+    if composing(cc):
+        chk.note("cfg:composing-fallback-factory")
     for op in history:
         if op["op"] == "copy":
             chk.note("copy:" + op["how"] + (":overrides" if op["kwargs"] else "") + (":of-a-copy" if op["src"] else ""))
@@ -243,16 +264,17 @@ def check_case(chk, drv, cc, preds, history, full, prefix_of, corr_fail, stats, 
             corr_fail.append((case, n, res_i[n], res_m[n], where))
 
 
-def depends_on(key, seen=None):
+def depends_on(key, seen=None, via=None):
     """keys of the types the hook for `key` may depend on: the type itself, the classes of its MRO, and -- recursively --
-    its component types"""
+    its component types (`via` = (cc, d): also the components `comps_of` names for that configuration, e.g. the virtual
+    components of plain classes under a composing fallback factory)"""
     seen = set() if seen is None else seen
     if key in seen:
         return seen
     seen.add(key)
     seen.update(U.mro.get(key, ()))
-    for p in U.types[key].parts:
-        depends_on(p, seen)
+    for p in tuple(U.types[key].parts) + (tuple(c for c in dc.comps_of(via[0], via[1], key) if c is not None) if via else ()):
+        depends_on(p, seen, via)
     return seen
 
 
@@ -292,6 +314,35 @@ def immediacy_cases(rng, quick):
                         else:
                             hist.append({"op": "factory", "conv": 0, "dir": d, "pred": 1, "tag": 2, "extended": bool(n % 2), "form": "call"})
                         yield cc, preds, hist, names, d
+    # composing fallback factories (hooks built out of the current hooks of other types; cached / uncached look-ups): every
+    # registration target some fallback-made hook depends on, after everything depending on it was used
+    for rname in dc.REG_TARGETS:
+        r = U.k(rname)
+        for klass in ("Converter", "BaseConverter"):
+            for d in DIRS:
+                for fid in dc.COMPOSE_FB:
+                    n += 1
+                    if quick and n % 2:
+                        continue
+                    cc = ConvCfg(klass=klass, fb_un=fid if d == UN else 0, fb_st=fid if d == ST else 0)
+                    names = [t.name for t in U.types if t.name in dc.PROBES and not dc.excluded(cc, d, t.key)
+                             and r in depends_on(t.key, via=(cc, d))]
+                    order = list(names)
+                    rng.shuffle(order)
+                    hist = []
+                    for nm in order:
+                        w = {"conv": 0, "dir": d, "ty": U.k(nm)}
+                        w.update({"op": "call"} if rng.random() < 0.5 else
+                                 {"op": "get", "cached": rng.random() < 0.7, "apply": rng.random() < 0.5})
+                        hist.append(w)
+                    kind = ("hook", "func", "factory")[n % 3]
+                    if kind == "hook":
+                        hist.append({"op": "hook", "conv": 0, "dir": d, "ty": r, "tag": 2, "form": ("call", "deco")[n % 2]})
+                    elif kind == "func":
+                        hist.append({"op": "func", "conv": 0, "dir": d, "pred": 1, "tag": 2})
+                    else:
+                        hist.append({"op": "factory", "conv": 0, "dir": d, "pred": 1, "tag": 2, "extended": bool(n % 2), "form": "call"})
+                    yield cc, {1: ({r}, set())}, hist, names, d
 
 
 def copy_sweep_cases():
@@ -359,7 +410,7 @@ def run(chk: framework.Check):
     # ---- immediacy sweep: every registration target x kind, after everything that depends on it was used
     for cc, preds, history, names, d in immediacy_cases(rng, quick):
         full, prefix_of = with_batteries(rng, cc, history, 0, names, dirs=(d,))
-        chk.note("immediacy-sweep:" + d + (":strict-fallback" if cc.fb_un else ""))
+        chk.note("immediacy-sweep:" + d + (":composing-fallback" if composing(cc) else ":strict-fallback" if cc.fb_un else ""))
         check_case(chk, drv, cc, preds, history, full, prefix_of, corr_fail, stats)
     # ---- copy sweep: a used converter is copied in every way / with every option override
     for cc, preds, history in copy_sweep_cases():
@@ -373,6 +424,8 @@ def run(chk: framework.Check):
         cc = gen_cfg(rng)
         preds = dc.gen_preds(rng)
         copies = rng.choice([1, 1, 2]) if i % 3 == 0 else 0
+        if composing(cc):
+            copies = 0   # copy() hands the copy the SOURCE's factory object (closed over the source converter): C18's business
         history = build_history(rng, cc, preds, rng.randint(2, max_ops), copies=copies)
         full, prefix_of = with_batteries(rng, cc, history, 1 if copies else 2, battery)
         check_case(chk, drv, cc, preds, history, full, prefix_of, corr_fail, stats, opt_probes=bool(copies))
@@ -389,6 +442,8 @@ def run(chk: framework.Check):
                          "registrations, option-sensitive collection probes included); reference runs on threads of their own")
     chk.extra["option_sensitive_probes"] = stats.get("opt_probes", 0)
     derived_stream(chk, 400 if quick else 4000)
+    fallback_stream(chk, 140 if quick else 3000)
+    strategy_stream(chk, 50 if quick else 1500)
     chk.extra["probes"] = stats["probes"]
     chk.extra["correspondence_disagreements"] = len(corr_fail)
     drv.close()
@@ -397,6 +452,10 @@ def run(chk: framework.Check):
 def replay(case):
     if case.get("stream") == "derived":
         return derived_replay(case)
+    if case.get("stream") == "fallback":
+        return fallback_replay(case)
+    if case.get("stream") == "strategies":
+        return strategy_replay(case)
     drv = lean.Driver()
     cc = ConvCfg.from_json(case["cfg"])
     preds = dc.preds_from_json(case["preds"])
